@@ -124,3 +124,70 @@ fire("c13-gov-constant-authority", "C13", ["C13.gov"],
 		app.BankKeeper,
 		app.AccountKeeper,
 		authtypes.NewModuleAddress(authtypes.FeeCollectorName).String(),"""))
+
+# ---------------- C01 ----------------
+MINT = "x/cfeminter/keeper/mint.go"
+DISTR = "x/cfedistributor/keeper/distribution.go"
+VEST = "x/cfevesting/keeper/vesting.go"
+fire("c01-vesting-mints-on-withdraw", "C01", ["C01.confine", "C01.iface", "C01.moveonly"],
+     ("x/cfevesting/types/expected_keepers.go", "	BlockedAddr(addr sdk.AccAddress) bool\n}", "	BlockedAddr(addr sdk.AccAddress) bool\n	MintCoins(ctx sdk.Context, moduleName string, amt sdk.Coins) error\n}"),
+     (VEST, "		err = k.bank.SendCoinsFromModuleToAccount(ctx, types.ModuleName, ownerAddress, coinsToSend)\n		if err != nil {\n			k.Logger(ctx).Error(\"withdraw all available sending",
+      "		if k.bank.GetBalance(ctx, k.account.GetModuleAccount(ctx, types.ModuleName).GetAddress(), denom).Amount.LT(toWithdraw) {\n			_ = k.bank.MintCoins(ctx, types.ModuleName, coinsToSend)\n		}\n		err = k.bank.SendCoinsFromModuleToAccount(ctx, types.ModuleName, ownerAddress, coinsToSend)\n		if err != nil {\n			k.Logger(ctx).Error(\"withdraw all available sending"))
+fire("c01-upgrade-burns", "C01", ["C01.confine"],
+     ("app/upgrades/v120/upgrades.go", "		UpdateVestingAccountTraces(ctx, appKeepers)\n", "		UpdateVestingAccountTraces(ctx, appKeepers)\n		_ = (*appKeepers.GetBankKeeper()).BurnCoins(ctx, cfevestingmoduletypes.ModuleName, sdk.NewCoins())\n"))
+fire("c01-second-mint", "C01", ["C01.mint1"],
+     (MINT, "	err = k.SendMintedCoins(ctx, coins)", "	if level > 0 {\n		_ = k.MintCoins(ctx, coins)\n	}\n	err = k.SendMintedCoins(ctx, coins)"))
+fire("c01-forward-nothing", "C01", ["C01.mint1"],
+     (MINT, "	err = k.SendMintedCoins(ctx, coins)", "	err = k.SendMintedCoins(ctx, sdk.NewCoins())"))
+fire("c01-bookkeep-other-amount", "C01", ["C01.mint1"],
+     (MINT, "minterState.AmountMinted = minterState.AmountMinted.Add(amount)", "minterState.AmountMinted = minterState.AmountMinted.Add(amount.AddRaw(1))"))
+fire("c01-mint-error-ignored", "C01", ["C01.mint1"],
+     (MINT, """	if err != nil {
+		k.Logger(ctx).Error("mint - mint coins error", "lev", level, "error", err.Error())
+		return sdk.ZeroInt(), sdkerrors.Wrap(err, "minter mint coins error")
+	}
+""", """	if err != nil {
+		k.Logger(ctx).Error("mint - mint coins error", "lev", level, "error", err.Error())
+	}
+"""))
+fire("c01-collector-other", "C01", ["C01.mint1"],
+     ("app/app.go", "		app.StakingKeeper,\n		cfedistributormoduletypes.DistributorMainAccount,", "		app.StakingKeeper,\n		authtypes.FeeCollectorName,"))
+fire("c01-mint-into-other-module", "C01", ["C01.mint1"],
+     ("x/cfeminter/keeper/keeper.go", "return k.bankKeeper.MintCoins(ctx, types.ModuleName, newCoins)", "return k.bankKeeper.MintCoins(ctx, k.collectorName, newCoins)"))
+fire("c01-burn-remains-before-check", ["C01"], ["C01.burn1"],
+     (DISTR, """	if err := k.BurnCoinsForSpecifiedModuleAccount(ctx, toSend, types.DistributorMainAccount); err != nil {
+		ctx.Logger().Error("burn coins error", "state", state, "error", err.Error())
+	} else {""", """	state.Remains = change
+	if err := k.BurnCoinsForSpecifiedModuleAccount(ctx, toSend, types.DistributorMainAccount); err != nil {
+		ctx.Logger().Error("burn coins error", "state", state, "error", err.Error())
+	} else {"""))
+fire("c01-burn-non-burn-state", "C01", ["C01.burn1"],
+     (DISTR, "			if state.Burn {\n				k.burnCoins(ctx, &state)", "			if !state.Burn {\n				k.burnCoins(ctx, &state)"))
+fire("c01-burn-other-account", "C01", ["C01.burn1"],
+     (DISTR, "k.BurnCoinsForSpecifiedModuleAccount(ctx, toSend, types.DistributorMainAccount)", "k.BurnCoinsForSpecifiedModuleAccount(ctx, toSend, types.ValidatorsRewardsCollector)"))
+fire("c01-burn-no-reduce", "C01", ["C01.burn1"],
+     (DISTR, """			[]metrics.Label{telemetry.NewLabel("denom", types.DenomToTrace)},
+		)
+		state.Remains = change
+	}
+}
+
+func (k Keeper) sendCoinsToModuleAccount""", """			[]metrics.Label{telemetry.NewLabel("denom", types.DenomToTrace)},
+		)
+		_ = change
+	}
+}
+
+func (k Keeper) sendCoinsToModuleAccount"""))
+silent("c01-coins-in-helper", "C01",
+       (MINT, "	coin := sdk.NewCoin(params.MintDenom, amount)\n	coins := sdk.NewCoins(coin)\n", "	coins := sdk.NewCoins(sdk.NewCoin(params.MintDenom, amount))\n"))
+silent("c01-burn-early-return", "C01",
+       (DISTR, """	if err := k.BurnCoinsForSpecifiedModuleAccount(ctx, toSend, types.DistributorMainAccount); err != nil {
+		ctx.Logger().Error("burn coins error", "state", state, "error", err.Error())
+	} else {
+		k.Logger(ctx).Debug("Coins burned", "coins", toSend)""", """	if err := k.BurnCoinsForSpecifiedModuleAccount(ctx, toSend, types.DistributorMainAccount); err != nil {
+		ctx.Logger().Error("burn coins error", "state", state, "error", err.Error())
+		return
+	}
+	{
+		k.Logger(ctx).Debug("Coins burned", "coins", toSend)"""))
